@@ -88,6 +88,17 @@ fn ctypes() -> Vec<ContentType> {
     ]
 }
 
+/// One file body in four is longer on disk than the length the response declares (a file that grew after the response
+/// was built, or a response that offers a prefix of a file): the message still carries exactly the declared bytes.
+fn grow(p: &std::path::Path, r: &mut StdRng) {
+    if r.gen_bool(0.25) {
+        use std::io::Write as _;
+        let extra = *[1usize, 17, 4096, 70_000].choose(r).unwrap();
+        let mut f = std::fs::OpenOptions::new().append(true).open(p).unwrap();
+        f.write_all(&vec![b'+'; extra]).unwrap();
+    }
+}
+
 pub fn run_gen(args: &Args, mut out: Out) {
     let n = args.usize("n", 500);
     let big = args.usize("big", 0);
@@ -137,12 +148,14 @@ pub fn run_gen(args: &Args, mut out: Out) {
             2 => {
                 let p = dir.path().join(format!("f{sid}"));
                 std::fs::write(&p, &bytes).unwrap();
+                grow(&p, &mut r);
                 resp = resp.with_body(ResponseBody::File(p, len as u64));
                 ("File", true, len, digest(&bytes))
             }
             3 => {
                 let t = temp_file::TempFile::in_dir(dir.path()).unwrap();
                 std::fs::write(t.path(), &bytes).unwrap();
+                grow(t.path(), &mut r);
                 resp = resp.with_body(ResponseBody::TempFile(t, len as u64));
                 ("TempFile", true, len, digest(&bytes))
             }
@@ -522,6 +535,54 @@ pub fn run_faults(args: &Args, mut out: Out) {
                    "firstCode": text.get(9..12).and_then(|s| s.parse::<u64>().ok()).unwrap_or(0),
                    "bytes":got.len(),"bodyBytes": got.len().saturating_sub(head_len(&got)),
                    "bodyIsPrefix": body_is_prefix}),
+        );
+    }
+    // ---- connection level: the SOCKET fails while the response is being written (the peer reads the first bytes of a
+    // response far larger than the socket buffers and goes away with the rest unread) ----
+    for what in ["socket_vec", "socket_file"] {
+        sid += 1;
+        let big = 48usize << 20;
+        let resp = if what == "socket_vec" {
+            Response::new(200).with_body(vec![b'v'; big])
+        } else {
+            let p = dir.path().join(format!("big{sid}"));
+            let f = std::fs::File::create(&p).unwrap();
+            f.set_len(big as u64).unwrap(); // sparse
+            Response::new(200).with_body(ResponseBody::File(p, big as u64))
+        };
+        let mut c = std::net::TcpStream::connect(addr).unwrap();
+        c.write_all(b"GET / HTTP/1.1\r\n\r\n").unwrap();
+        c.shutdown(std::net::Shutdown::Write).unwrap();
+        let (s, peer) = listener.accept().unwrap();
+        let client = std::thread::spawn(move || {
+            let mut first = [0u8; 1000];
+            let _ = c.read_exact(&mut first);
+            drop(c); // unread data pending: the kernel answers further segments with a reset
+            first[..12].to_vec()
+        });
+        let mut conn = HttpConn::new(peer, async_net::TcpStream::try_from(s).unwrap());
+        let ws = |c: &HttpConn| crate::drivers::conn_enum::ws_str(&c.write_state);
+        let (r1, ws1, r2, ws2, r3) = futures_lite::future::block_on(async {
+            conn.read_request().await.unwrap();
+            let r1 = conn.write_response(&resp).await;
+            let w1 = ws(&conn);
+            let r2 = conn.write_response(&Response::text(500, "Internal server error")).await;
+            let w2 = ws(&conn);
+            let r3 = conn.read_request().await.map(|_| ());
+            (r1, w1, r2, w2, r3)
+        });
+        drop(conn);
+        let first = client.join().unwrap();
+        if !out.wants(sid) {
+            continue;
+        }
+        out.ev(sid, "Reset", json!({}));
+        out.ev(
+            sid,
+            "ConnFault",
+            json!({"what":"socket","body":what,"r1":res_kind(&Some(r1)),"ws1":ws1,"r2":res_kind(&Some(r2)),"ws2":ws2,"r3":res_kind(&Some(r3)),
+                   "statusLines":1,"firstCode": std::str::from_utf8(&first[9..12]).ok().and_then(|s| s.parse::<u64>().ok()).unwrap_or(0),
+                   "bytes":1000,"bodyBytes":0,"bodyIsPrefix":true}),
         );
     }
     out.finish();
